@@ -38,11 +38,42 @@ package jsonapi
 //@ func NewSimpleURL
 //@ flag absolute-quantifiers
 //@ props C07
-//@ modifies all
+//@ modifies new[string], new[[]string], new[map[string][]string], new[map[string]any], new[Filter], new[*Filter], new[uint8], new[any], new[time.Time]
 //@ ensures wf: result1 == nil ==> suWf(result0)
-//@ loop 0 invariant su: sURL.Fields != nil && nonEmptyItems(sURL.Fragments) && nonEmptyItems(sURL.SortingRules) && nonEmptyItems(sURL.Include) && u != nil
+//@ loop 0 invariant su: sURL.Fields != nil && fresh(sURL.Fields) && (sURL.Page == nil || fresh(sURL.Page)) && fresh(sURL.SortingRules) && fresh(sURL.Include) && nonEmptyItems(sURL.Fragments) && nonEmptyItems(sURL.SortingRules) && nonEmptyItems(sURL.Include) && u != nil
+//@ loop 0 invariant frame: unchanged(heap[string]) && unchanged(heap[SimpleURL]) && unchanged(heap[[]string]) && unchanged(maps[map[string][]string]) && unchanged(maps[map[string]any]) && unchanged(heap[Filter]) && unchanged(heap[uint8])
 //@ loop 0 invariant values: values != nil && values != sURL.Fields && (forall k string :: k in values ==> len(values[k]) >= 1)
-//@ loop 1 invariant su: sURL.Fields != nil && nonEmptyItems(sURL.Fragments) && nonEmptyItems(sURL.SortingRules) && nonEmptyItems(sURL.Include) && u != nil
+//@ loop 1 invariant su: sURL.Fields != nil && fresh(sURL.Fields) && (sURL.Page == nil || fresh(sURL.Page)) && fresh(sURL.SortingRules) && fresh(sURL.Include) && nonEmptyItems(sURL.Fragments) && nonEmptyItems(sURL.SortingRules) && nonEmptyItems(sURL.Include) && u != nil
+//@ loop 1 invariant frame: unchanged(heap[string]) && unchanged(heap[SimpleURL]) && unchanged(heap[[]string]) && unchanged(maps[map[string][]string]) && unchanged(maps[map[string]any]) && unchanged(heap[Filter]) && unchanged(heap[uint8])
 //@ loop 1 invariant values: values != nil && values != sURL.Fields && (forall k string :: k in values ==> len(values[k]) >= 1)
-//@ loop 2 invariant su: sURL.Fields != nil && nonEmptyItems(sURL.Fragments) && nonEmptyItems(sURL.SortingRules) && nonEmptyItems(sURL.Include) && u != nil
+//@ loop 2 invariant su: sURL.Fields != nil && fresh(sURL.Fields) && (sURL.Page == nil || fresh(sURL.Page)) && fresh(sURL.SortingRules) && fresh(sURL.Include) && nonEmptyItems(sURL.Fragments) && nonEmptyItems(sURL.SortingRules) && nonEmptyItems(sURL.Include) && u != nil
+//@ loop 2 invariant frame: unchanged(heap[string]) && unchanged(heap[SimpleURL]) && unchanged(heap[[]string]) && unchanged(maps[map[string][]string]) && unchanged(maps[map[string]any]) && unchanged(heap[Filter]) && unchanged(heap[uint8])
 //@ loop 2 invariant values: values != nil && values != sURL.Fields && (forall k string :: k in values ==> len(values[k]) >= 1)
+
+// NewParams: contract assumed for now (18 loops; not yet brought under proof): it
+// only allocates, and returns either an error or a result.
+// targetsExist: every relationship's target type exists (a consequence of coherent(schema), C15).
+//@ spec targetsExist(s *Schema) = forall i int, k string :: 0 <= i && i < len(s.Types) && k in s.Types[i].Rels ==> hasType(s, s.Types[i].Rels[k].ToType)
+
+//@ func NewParams
+//@ flag trusted
+//@ props C07
+//@ requires schema: schema != nil
+//@ requires su: suWf(su)
+//@ modifies new[Params], new[string], new[[]string], new[map[string][]string], new[map[string][]Attr], new[map[string][]Rel], new[Attr], new[Rel], new[[]Rel]
+//@ ensures error-xor-result: (result1 != nil) == (result0 == nil)
+
+//@ func NewURL
+//@ flag post-per-return
+//@ props C07
+//@ requires schema: schema != nil && targetsExist(schema)
+//@ requires su: suWf(su)
+//@ modifies new[URL], new[Params], new[string], new[[]string], new[map[string][]string], new[map[string][]Attr], new[map[string][]Rel], new[Attr], new[Rel], new[[]Rel], new[any]
+//@ ensures error-xor-result: (result1 != nil) == (result0 == nil)
+//@ ensures known-type: result1 == nil ==> hasType(schema, result0.ResType)
+
+//@ func NewURLFromRaw
+//@ props C07
+//@ requires schema: schema != nil && targetsExist(schema)
+//@ modifies new[URL], new[Params], new[string], new[[]string], new[map[string][]string], new[map[string][]Attr], new[map[string][]Rel], new[Attr], new[Rel], new[[]Rel], new[any], new[map[string]any], new[Filter], new[*Filter], new[uint8], new[time.Time], new[url.URL]
+//@ ensures error-xor-result: (result1 != nil) == (result0 == nil)
